@@ -142,6 +142,7 @@ func (p *Program) relObligations() ([]*Obligation, []string, error) {
 			Goal: tImp(r1, r2), Decls: ex.decls, Facts: st.facts[:len(st.facts):len(st.facts)],
 			Desc: fmt.Sprintf("detector of %s (%s) accepts every extension of an accepted header", c.name, shortFn(p, c.det.Fn))}
 		cc := c
+		o.replayFn = p.relReplay(ex, st, c, raw1, len2, l1, l2)
 		o.relAlt = func() *Obligation {
 			// fall-back: some non-text root detector accepts the longer header. First the
 			// detectors that this one consults itself (hand-over), then all of them.
@@ -167,13 +168,13 @@ func (p *Program) relObligations() ([]*Obligation, []string, error) {
 					}
 				}
 				return &Obligation{Fn: o.Fn, Kind: o.Kind, Name: o.Name, Goal: tImp(r1, tOr(alts...)), Decls: ex.decls,
-					Facts: st2.facts[:len(st2.facts):len(st2.facts)], Desc: o.Desc + " (or a non-text root detector it hands over to does)", relAlt: o.relAlt, relAltFull: true}
+					Facts: st2.facts[:len(st2.facts):len(st2.facts)], Desc: o.Desc + " (or a non-text root detector it hands over to does)", relAlt: o.relAlt, relAltFull: true, replayFn: o.replayFn}
 			}
 			for _, d := range nonText {
 				alts = append(alts, f.callDetector(st2, d.det, raw2, l2))
 			}
 			return &Obligation{Fn: o.Fn, Kind: o.Kind, Name: o.Name, Goal: tImp(r1, tOr(alts...)), Decls: ex.decls,
-				Facts: st2.facts[:len(st2.facts):len(st2.facts)], Desc: o.Desc + " (or another non-text root detector does)"}
+				Facts: st2.facts[:len(st2.facts):len(st2.facts)], Desc: o.Desc + " (or another non-text root detector does)", replayFn: o.replayFn}
 		}
 		obs = append(obs, o)
 	}
@@ -192,4 +193,106 @@ func (f *frame) callDetector(st *State, det VFunc, raw VSlice, limit Val) T {
 		return b.T
 	}
 	return "false"
+}
+
+// relReplay builds the replay of a failed monotonicity obligation: the model's bytes, the two
+// lengths and the two limits are read back and the real detector is called on both headers.
+func (p *Program) relReplay(ex *Exec, st *State, c rootChild, raw VSlice, len2 T, l1, l2 Val) func(o *Obligation) *ReplayResult {
+	return func(o *Obligation) *ReplayResult {
+		rr := &ReplayResult{Function: "magic detector of " + c.name, Inputs: map[string]string{}}
+		// name under which the detector can be called from package magic
+		name := ""
+		if c.det.Fn.Parent() == nil && c.det.Fn.Signature.Recv() == nil {
+			name = c.det.Fn.Name()
+		} else {
+			mp := p.byName["magic"]
+			for mn, m := range mp.Members {
+				if g, ok := m.(*ssa.Global); ok {
+					if fv, ok := p.globalLoad(ex, st, g).(VFunc); ok && fv.ID == c.det.ID {
+						name = mn
+					}
+				}
+			}
+		}
+		if name == "" {
+			rr.Reason = "detector value has no name in package magic"
+			return rr
+		}
+		cz := newConcretizer(o)
+		okModel := false
+		for _, k := range []int64{64, 600, 5000} {
+			extra := []string{tLe(len2, num(k))}
+			if _, status := cz.run(extra, nil); status == "sat" {
+				cz.pins = append(cz.pins, extra...)
+				okModel = true
+				break
+			}
+		}
+		if !okModel {
+			rr.Reason = "no model with a header of at most 5000 bytes (the counterexample needs a larger input); not replayed"
+			return rr
+		}
+		vals, ok := cz.scalars([]T{raw.Len, len2, l1.(VInt).T, l2.(VInt).T})
+		if !ok {
+			rr.Reason = "model read-back failed"
+			return rr
+		}
+		var n1, n2 int64
+		fmt.Sscan(vals[0], &n1)
+		fmt.Sscan(vals[1], &n2)
+		terms := make([]T, n2)
+		for i := range terms {
+			terms[i] = tSel(st.mem[raw.R][0], tIdx(raw.Off, num(int64(i))))
+		}
+		var bs []byte
+		if n2 > 0 {
+			bv, ok := cz.scalarsChunked(terms)
+			if !ok {
+				rr.Reason = "model read-back of bytes failed"
+				return rr
+			}
+			for _, s := range bv {
+				var x int64
+				fmt.Sscan(s, &x)
+				bs = append(bs, byte(x))
+			}
+		}
+		rr.Inputs["raw"] = fmt.Sprintf("%q", string(bs))
+		rr.Inputs["len1"], rr.Inputs["len2"], rr.Inputs["limit1"], rr.Inputs["limit2"] = vals[0], vals[1], vals[2], vals[3]
+		src := fmt.Sprintf(`package magic
+
+import (
+	encjson "encoding/json"
+	"os"
+	"testing"
+)
+
+func TestGovcReplay(t *testing.T) {
+	raw := []byte(%q)
+	d1 := %s(raw[:%d], uint32(%s))
+	d2 := %s(raw[:%d], uint32(%s))
+	out, _ := encjson.Marshal(map[string]any{"panic": "", "results": []any{d1, d2}, "pre": []any{}, "post": []any{}})
+	os.WriteFile(os.Getenv("GOVC_REPLAY_OUT"), out, 0o644)
+}
+`, string(bs), name, n1, vals[2], name, n2, vals[3])
+		rr.TestFile = src
+		obs, out, cmd, err := runHarness(p, p.byName["magic"], src)
+		rr.Cmd, rr.Output = cmd, truncate(out, 2000)
+		if err != nil {
+			rr.Reason = "replay run failed: " + err.Error()
+			return rr
+		}
+		rr.Observed = obs
+		var od struct {
+			Results []bool `json:"results"`
+		}
+		encodingJSONUnmarshal(obs, &od)
+		if len(od.Results) == 2 && od.Results[0] && !od.Results[1] {
+			rr.Reproduced = true
+			rr.Reason = fmt.Sprintf("real detector %s accepts the first %d bytes and rejects the first %d bytes of the same input", name, n1, n2)
+		} else {
+			rr.Reason = "real detector did not behave as in the model"
+		}
+		return rr
+	}
 }
